@@ -326,10 +326,8 @@ def dumpstruct_params(env, res, U, dc, viol):
                     if shortcut and form == "class+data" and color:
                         # dumpstruct(S, data, color=True) with S = struct { char only[N]; } and N bytes of data raises AttributeError ('_sizes') on
                         # the unmodified tree: S(data) takes the value-initialisation shortcut and such objects carry no field sizes
-                        res.feat("dumpstruct-params:class+data-of-a-lone-char-array:pending")
-                        form = "instance"
-                        if False:  # PENDING-FINDING  (enable to probe the (class, data) form here as well)
-                            form = "class+data"
+                        # (found by this probe, repaired: fixed F47) - probed like every other shape
+                        res.feat("dumpstruct-params:class+data-of-a-lone-char-array")
                     case = {"kind": "dumpstruct", "definition": text, "compiled": compiled, "color": color, "has_bits": has_bits, "has_void": has_void,
                             "data": data.hex(), "offset": offset, "output": mode, "form": form}
                     res.count(("dumpstruct-params", text, compiled, color, data, offset, mode, form))
@@ -467,8 +465,8 @@ def pack_widths(env, res, U, viol, lines, metas):
                 else:
                     # The unmodified library's unpack() rejects every explicit size that is not a multiple of 8 (it demands len == size // 8
                     # while pack() writes ceil(size / 8) bytes), and swap() is built on it.  Counted, not judged, here.
-                    res.feat("unpack:explicit-size-not-multiple-of-8:rejected-by-the-library")
-                    if False:  # PENDING-FINDING  unpack(pack(v, w), w) / swap(v, w) raise ValueError for every w % 8 != 0 on the unmodified tree
+                    res.feat("unpack:explicit-size-not-multiple-of-8")
+                    if True:  # used to raise ValueError for every w % 8 != 0 (found by this probe, repaired: fixed F46)
                         if U.unpack(bs, w, sp, sign=v < 0) != v:
                             viol(f"unpack(pack({v:#x}, {w}, {sp!r}), {w}) is not the value", case)
                         if v >= 0 and U.swap(U.swap(v, w), w) != v:
